@@ -86,7 +86,7 @@ ClaimsAbout(W, pn, attr, signer) ==
    then attribute claims and delete claims, each delete naming an earlier item), so TLC's breadth-first
    search visits every world within the bounds once and evaluates the lemmas on each.  ClaimsGen reuses
    the same actions to enumerate the worlds that are replayed on the real code. *)
-CONSTANTS MaxClaims, MaxDeletes, SAttrs, SVals, SDates, DelDates, DelSigners, Interleave
+CONSTANTS MaxClaims, MaxDeletes, SAttrs, SVals, SDates, DelDates, DelSigners, MixDeletes
 VARIABLE world
 
 PN == 3
@@ -106,7 +106,7 @@ Cs == AttrClaims(world, PN)
 Deletable == {c.id : c \in {c \in world : c.kind \in {"permanode", "claim", "delete"}}}
 
 AddClaim(sh) == /\ Cardinality(Cs) < MaxClaims
-                /\ Interleave \/ Ds = {}
+                /\ MixDeletes \/ Ds = {}
                 /\ world' = world \cup {Item(NextId, sh)}
 AddDelete(t, d, s) == /\ Cardinality(Ds) < MaxDeletes
                       /\ world' = world \cup {Del(NextId, t, d, s)}
